@@ -86,7 +86,7 @@ func c20CLI(r *RunCtx) error {
 	// along, next to ordinary ones
 	special := []string{"\u6771\u4eac\u3000\u5199\u771f.jpg", "\u6771\u4eac\u5199\u771f.jpg", "a\u00a0b.txt", "ab.txt", "tab\there", "tabhere",
 		"\U0001F468\u200d\U0001F469\u200d\U0001F467.png", "\u0645\u06cc\u200c\u062e\u0648\u0627\u0647\u0645.txt", "line\rfeed", "bom\ufeffname", "soft\u00adhyphen",
-		"\u00dcn\u00efc\u00f6d\u00e9", "\u65e5\u672c\u8a9e", "100%", "x y", "e\u0301.txt", "\u202ertl.txt"}
+		"\u00dcn\u00efc\u00f6d\u00e9", "\u65e5\u672c\u8a9e", "100%", "x y", "e\u0301.txt", "\u202ertl.txt", "2024\\report.txt", "back\\slash"}
 	n := r.Scale(60, 400)
 	for i := 0; i < n; i++ {
 		k := 2 + p.Intn(4)
